@@ -335,7 +335,7 @@ CONTRACTS.update({
         props=["C01", "C03", "C16", "C17"],
         params={"graph": GRAPH, "state": STATE, "active_nodes": OPT(SET(STR))},
         returns=SEQ(NODE),
-        requires=["nodes_keyed_by_name(graph)", "all(gate_targets_ok(g, END) for g in graph._nodes.values())"],
+        requires=["nodes_keyed_by_name(graph)", "gates_wellformed(graph, END)"],
         imports={"END": "hypergraph.nodes.gate"},
         ensures=CLEAR_POST + [
             # every returned node is in scope, activated by the (cleared) decisions, has its inputs, is ordered and needs a run
